@@ -1225,6 +1225,10 @@ func (g *gen) structured(thorough bool) {
 			c = append(c, q(base58.Encode(id)))
 		}
 		g.add(types.AergoSystem, payloadOf("v1voteBP", c), nil, "many-candidates")
+		// … followed by an argument no per-candidate check would accept (the checks stop at MaxCandidates, execution does not)
+		for _, junk := range []string{`5`, `null`, `{}`, `"0OIl"`, q(base58.Encode([]byte{0x00, 1, 7}))} {
+			g.add(types.AergoSystem, payloadOf("v1voteBP", append(append([]string{}, c...), junk)), nil, "many-candidates-junk")
+		}
 	}
 	// candidates of assorted decoded lengths (capacity classes of the candidate buffer)
 	for _, ls := range [][]int{{1}, {6}, {20}, {22}, {30}, {31}, {32}, {37, 37}, {37, 36}, {37, 38}, {46}, {62}, {76}, {37, 37, 1}, {100}, {37, 20, 20}} {
